@@ -118,7 +118,18 @@ func (r *Reader) request(pos int64, limit int64) (<-chan struct{}, error) {
 	if r.requestedIndex >= 0 {
 		index := uint32(pos / int64(r.torrent.Pieces.PieceSize()))
 		if r.requestedIndex == int(index) {
-			return r.ch, nil
+			if r.torrent.Pieces.Complete(index) {
+				return nil, nil
+			}
+			if r.ch != nil {
+				select {
+				case <-r.ch:
+				default:
+					// still waiting
+					return r.ch, nil
+				}
+			}
+			// the piece is gone, request it again
 		}
 	}
 
